@@ -540,6 +540,54 @@ func runMRSW(s caseSpec) caseLog {
 			return lg
 		}
 	}
+	// 3: a writer inside, two blocking readers that stay inside until both are in
+	// (readers do not exclude each other, so once the writer left both must get in
+	// without either of them leaving first)
+	{
+		if err := m.BeginWrite("scenario-holder-3"); err != nil {
+			sc["refused_when_free"]++
+			return lg
+		}
+		occW.Add(1)
+		var in, out sync.WaitGroup
+		var bad atomic.Int64
+		release := make(chan struct{})
+		for j := 0; j < 2; j++ {
+			in.Add(1)
+			out.Add(1)
+			go func() {
+				defer out.Done()
+				m.BeginReadBlocking()
+				occR.Add(1)
+				if occW.Load() != 0 {
+					bad.Add(1)
+				}
+				in.Done()
+				<-release
+				occR.Add(-1)
+				m.EndRead()
+			}()
+		}
+		time.Sleep(time.Duration(200+r.IntN(2000)) * time.Microsecond)
+		occW.Add(-1)
+		m.EndWrite()
+		t0 := time.Now()
+		all := make(chan struct{})
+		go func() { in.Wait(); close(all) }()
+		lat := int64(-1)
+		select {
+		case <-all:
+			lat = time.Since(t0).Microseconds()
+		case <-time.After(10 * time.Second):
+		}
+		lg.Prog = append(lg.Prog, [4]int64{3, lat, hb.MaxGap(t0, time.Now()).Microseconds(), 2})
+		sc["occupancy_violation"] += bad.Load()
+		close(release)
+		if lat < 0 {
+			return lg
+		}
+		out.Wait() // both readers have returned from EndRead
+	}
 	// finally the lock must be free for a try-writer
 	if err := m.BeginWrite("final"); err != nil {
 		sc["refused_when_free"]++
